@@ -199,7 +199,11 @@ def make_distance_matrix_from_adjacency_matrix(AG):
     if sps.issparse(AG):
         # csgraph routines reject some sparse formats (e.g. COO for graphs
         # with fewer than 3 vertices), so work on CSR throughout
-        AG = sps.csr_matrix(AG)
+        AG = sps.csr_matrix(AG, copy=True)
+        # zeros stored explicitly (the BSR format stores them inside its
+        # blocks) are not edges, but the unweighted searches below would
+        # treat every stored entry as one
+        AG.eliminate_zeros()
     else:
         # scipy's Floyd-Warshall (chosen for dense graphs) needs a
         # C-contiguous array; a transposed or Fortran-ordered adjacency
